@@ -305,4 +305,101 @@ Proof.
   intros H F tr' s' H'. destruct (inv2_reachable _ _ _ _ _ _ _ H) as (HI & HJ). apply (ticks_flagged tr' s s' HI HJ F H').
 Qed.
 
+(* ---------- C08: nothing but a cause stops the system ---------- *)
+Definition stopping (c : cpc) : bool :=
+  match c with
+  | CShut0 _ | CShut1 _ | CShut2 _ | CShut3 _ | CShut4 _
+  | CJoin _ | CFinScale | CFinSave0 | CFinSave1 | CDone | CJoinClient | CMainExit | CMainDone => true
+  | _ => false
+  end.
+Definition G8 (s : st) (cause : bool) : Prop :=
+  (stopping (cp s) = true \/ running s = false -> cause = true) /\
+  (forall k, cp s = CPoll k true -> cause = true).
+
+Definition quiet (c : cpc) : Prop := stopping c = false /\ forall k, c <> CPoll k true.
+Lemma quiet_poll : quiet poll_pc.
+Proof. unfold Threads.poll_pc. destruct (n =? 0); split; try reflexivity; intros k H; discriminate H. Qed.
+Lemma quiet_drain : quiet drain_pc.
+Proof. unfold Threads.drain_pc. destruct with_web; [split; [reflexivity|intros k H; discriminate H]|apply quiet_poll]. Qed.
+Lemma quiet_ret k : loop_k k = true -> quiet (ret_cont k).
+Proof. destruct k; try discriminate; intros _; apply quiet_drain. Qed.
+Lemma quiet_tp ok ret k : loop_k k = true -> quiet (tp_return ok ret k).
+Proof.
+  intros L. unfold Threads.tp_return. destruct ret as [ap|]; [destruct ok|]; try (apply quiet_ret; exact L).
+  split; [reflexivity|intros k0 H; discriminate H].
+Qed.
+
+Ltac quiet_goal Q G1 :=
+  first [ intros [Hx|Hx]; [rewrite (proj1 Q) in Hx; discriminate Hx|apply G1; right; exact Hx]
+        | intros k0 Hx; exfalso; eapply (proj2 Q); exact Hx ].
+
+Lemma ctl_cause s l s' cause : Inv2 s -> G8 s cause -> ctl_step s l = Some s' ->
+  G8 s' (cause || is_cause TCtl l) /\
+  (match l with LSet EShut | LJoin (TBg _) | LLaunchDone _ => cause = true | _ => True end).
+Proof.
+  intros (_ & _ & _ & _ & _ & _ & _ & _ & _ & J10) (G1 & G2) H. unfold Threads.ctl_step in H.
+  pose proof quiet_poll as QP. pose proof quiet_drain as QD.
+  destruct (cp s) eqn:Hc; destruct l; try discriminate;
+    repeat match type of H with
+           | context [match ?x with _ => _ end] => destruct x eqn:?; try discriminate
+           end;
+    inversion H; subst; clear H;
+    unfold G8, exc_goto, ctl, set_cp, set_res, set_misc, set_pp, set_bp, after_pool, start_pool; cbn [cp running is_cause stopping];
+    cbn [loop_pc_ok] in J10;
+    rewrite ?orb_true_r, ?orb_false_r;
+    (split; [split|]); try exact I; try reflexivity; try (intros; reflexivity);
+    try (apply G1; left; reflexivity); try (intros _; apply G1; left; reflexivity).
+  all: try (intros [Hx|Hx]; try discriminate Hx; apply G1; right; exact Hx).
+  all: try (intros kk Hx; discriminate Hx).
+  all: try (intros [Hx|Hx]; apply G1; auto; fail).
+  all: try (rewrite Hc in *; intros; try (apply G1; assumption); try (eapply G2; eassumption); fail).
+  all: try (intros _; eapply G2; reflexivity).
+  all: try (quiet_goal QP G1). all: try (quiet_goal QD G1).
+  all: try (pose proof (quiet_ret _ J10) as QR; quiet_goal QR G1).
+  all: try (match goal with |- context [tp_return ?ok ?ret ?k] => pose proof (quiet_tp ok ret k J10) as QT; quiet_goal QT G1 end).
+  all: try (repeat match goal with |- context [if ?x then _ else _] => destruct x end;
+            first [ intros [Hx|Hx]; [discriminate Hx|apply G1; right; exact Hx] | intros k0 Hx; discriminate Hx ]).
+  all: try (intros; apply G1; left; reflexivity).
+  all: try (intros [Hx|Hx]; [discriminate Hx|congruence]).
+  all: destruct b; rewrite ?orb_true_r, ?orb_false_r in *; try (intros; reflexivity).
+  all: try (intros [Hx|Hx]; [|apply G1; right; exact Hx]).
+  all: try (intros k0 Hx).
+  all: try discriminate.
+  all: try (inversion Hx; subst); subst; eapply G2; reflexivity.
+Qed.
+
+Lemma G8_frame s s' cause : cp s' = cp s -> running s' = running s -> G8 s cause -> G8 s' cause.
+Proof. intros Ec Er (G1 & G2). unfold G8. rewrite Ec, Er. auto. Qed.
+
+Lemma c08_from : forall tr s s' cause, Inv s -> Inv2 s -> G8 s cause -> run s tr = Some s' -> c08_mon cause tr = true.
+Proof.
+  induction tr as [|[t l] tr IH]; intros s s' cause HI HJ HG H; [reflexivity|].
+  cbn [Threads.run] in H. destruct (step s t l) as [s1|] eqn:E; [|discriminate].
+  pose proof (inv_step _ _ _ _ _ _ _ _ _ HI E) as HI1.
+  pose proof (inv2_step _ _ _ _ _ _ _ _ _ HI HJ E) as HJ1.
+  cbn [c08_mon].
+  destruct t as [|i|j| |].
+  - unfold Threads.step in E. destruct (ctl_cause _ _ _ cause HJ HG E) as (HG1 & Hl).
+    specialize (IH s1 s' _ HI1 HJ1 HG1 H).
+    destruct l; try exact IH.
+    + destruct e; try exact IH. rewrite Hl in *. exact IH.
+    + destruct t; try exact IH. rewrite Hl in *. exact IH.
+    + rewrite Hl in *. exact IH.
+  - unfold Threads.step in E. destruct (i <? n); [|discriminate].
+    destruct (bg_ex _ _ _ _ E) as (Ec & Er & _).
+    cbn [is_cause]. rewrite orb_false_r. apply (IH s1 s' cause HI1 HJ1); [eapply G8_frame; eassumption|exact H].
+  - destruct (other_frame _ _ _ _ E) as (Ec & Er & _); try discriminate.
+    cbn [is_cause]. rewrite orb_false_r. apply (IH s1 s' cause HI1 HJ1); [eapply G8_frame; eassumption|exact H].
+  - destruct (other_frame _ _ _ _ E) as (Ec & Er & _); try discriminate.
+    cbn [is_cause]. rewrite orb_false_r. apply (IH s1 s' cause HI1 HJ1); [eapply G8_frame; eassumption|exact H].
+  - destruct (other_frame _ _ _ _ E) as (Ec & Er & _); try discriminate.
+    cbn [is_cause]. rewrite orb_false_r. apply (IH s1 s' cause HI1 HJ1); [eapply G8_frame; eassumption|exact H].
+Qed.
+
+Theorem C08_monitor_holds tr s : run init tr = Some s -> C08_ok tr = true.
+Proof.
+  intros H. apply (c08_from tr init s false); [apply inv_init|apply inv2_init| |exact H].
+  split; [intros [Hx|Hx]; discriminate Hx|intros k Hx; discriminate Hx].
+Qed.
+
 End Fault.
